@@ -22,9 +22,10 @@ case "$1" in
     id=$2; tier=${3:-quick}
     export CARGO_NET_OFFLINE=true CARGO_TARGET_DIR=$L/.target VERIF_LANE=$L VERIF_REPO=$L/repo
     cd $L/verif/harness || exit 2
-    if [ "$id" != C19 ]; then cargo build --profile checked --offline >$L/.target/build-checked.log 2>&1 & cpid=$!; fi
-    cargo build --release --offline >$L/.target/build.log 2>&1 || { tail -20 $L/.target/build.log >&2; echo "MACHINERY-ERROR build failed" >&2; [ "$id" != C19 ] && wait $cpid; exit 2; }
-    if [ "$id" != C19 ]; then wait $cpid || { tail -20 $L/.target/build-checked.log >&2; echo "MACHINERY-ERROR build (checked) failed" >&2; exit 2; }; fi
+    [ -n "$LANE_SINGLE_PROFILE" ] && export VERIF_SINGLE_PROFILE=1
+    if [ "$id" != C19 ] && [ -z "$LANE_SINGLE_PROFILE" ]; then cargo build --profile checked --offline >$L/.target/build-checked.log 2>&1 & cpid=$!; fi
+    cargo build --release --offline >$L/.target/build.log 2>&1 || { tail -20 $L/.target/build.log >&2; echo "MACHINERY-ERROR build failed" >&2; [ -n "$cpid" ] && wait $cpid; exit 2; }
+    if [ -n "$cpid" ]; then wait $cpid || { tail -20 $L/.target/build-checked.log >&2; echo "MACHINERY-ERROR build (checked) failed" >&2; exit 2; }; fi
     if [ "$id" = C19 ]; then
       for b in blst rust; do (cd $L/verif/xb && cargo build --release --offline --no-default-features --features $b --target-dir $L/.target/xb-$b >$L/.target/build-xb-$b.log 2>&1) || { echo "MACHINERY-ERROR xb $b build failed" >&2; exit 2; }; done
     fi
